@@ -8,6 +8,21 @@ WORKROOT = os.path.join(VERIF, "work")
 REPLAYS = os.path.join(VERIF, "replays")
 EVID = os.path.join(VERIF, "evidence")
 REPO = "/repo"
+# Self-test mode only (bin/selftest): VERIF_ALT=<scratch worktree of /repo with a change applied> runs the same checks against
+# that tree from a private copy of the harness, with work files, replays and evidence kept inside the worktree — so that
+# /repo, /verif/evidence and other running checks are not touched.  Registered commands never set it.
+ALT = os.environ.get("VERIF_ALT")
+if ALT:
+    REPO = os.path.abspath(ALT)
+    _p = os.path.join(REPO, ".verif")
+    WORKROOT, REPLAYS, EVID = os.path.join(_p, "work"), os.path.join(_p, "replays"), os.path.join(_p, "evidence")
+    _h = os.path.join(_p, "harness")
+    if not os.path.exists(os.path.join(_h, "Cargo.toml")):
+        os.makedirs(_p, exist_ok=True)
+        shutil.copytree(HARNESS, _h, ignore=shutil.ignore_patterns("target*", "gen", ".build.lock"), dirs_exist_ok=True)
+        _t = open(os.path.join(_h, "Cargo.toml")).read().replace('"/repo/static-metric"', '"%s/static-metric"' % REPO).replace('"/repo"', '"%s"' % REPO)
+        open(os.path.join(_h, "Cargo.toml"), "w").write(_t)
+    HARNESS = _h
 JAR = "/opt/veriftools/tla/tla2tools.jar:/opt/veriftools/tla/CommunityModules-deps.jar"
 
 
